@@ -406,6 +406,10 @@ theorem encSection_shape {cfg : EncCfg} {s : SectionLayout} {vs : List PVal} {pa
 
 /-! ## supplied values vs decoded values -/
 
+section rel
+-- `X`: "the encoder recomputes section lengths" (under it a descriptor list is read back exactly)
+variable (X : Prop)
+
 /-- decoded value `v'` of a parameter called `n` of declared width `nb` for the supplied value `v`:
     integers and flags come back as supplied (the two back-patched length fields excepted: their decoded
     values are characterised by `C04_decode_consumes_declared` / `C04_encoded_frame`), bytes blank-padded or
@@ -418,7 +422,7 @@ def PRel (n : String) (nb : Nat) (v v' : PVal) : Prop :=
   | .bool b => v' = .bool b
   | .bin bs => ∃ k, v' = .bin (bs ++ zeros k) ∧ (nb ≠ 0 → k = 0)
   | .bytes b => nb ≠ 0 → v' = .bytes (padBytes b (nb / 8))
-  | .descs ids => ∃ k, v' = .descs (ids ++ List.replicate k 0)
+  | .descs ids => ∃ k, v' = .descs (ids ++ List.replicate k 0) ∧ (X → k = 0)
   | .data => False
 
 /-- parameter list / supplied values / decoded values; the second conjunct: what the section loop
@@ -426,37 +430,39 @@ def PRel (n : String) (nb : Nat) (v v' : PVal) : Prop :=
 def RelVals : List Param → List PVal → List PVal → Prop
   | [], _, [] => True
   | p :: ps, v :: vs, v' :: vsD =>
-    PRel p.name p.nbits v v' ∧ (p.asProperty = true → isCtrl p.name = true → v' = v) ∧ RelVals ps vs vsD
+    PRel X p.name p.nbits v v' ∧ (p.asProperty = true → isCtrl p.name = true → v' = v) ∧ RelVals ps vs vsD
   | _, _, _ => False
 
 def decAcc (ps : List Param) (vsD : List PVal) : List (String × PVal) :=
   List.zipWith (fun p v' => (p.name, v')) ps vsD
 
 def ERel (e e' : String × PropEntry) : Prop :=
-  e.1 = e'.1 ∧ e.2.nbits = e'.2.nbits ∧ e.2.pos = e'.2.pos ∧ PRel e.1 e.2.nbits e.2.val e'.2.val ∧
+  e.1 = e'.1 ∧ e.2.nbits = e'.2.nbits ∧ e.2.pos = e'.2.pos ∧ PRel X e.1 e.2.nbits e.2.val e'.2.val ∧
     (isCtrl e.1 = true → e'.2.val = e.2.val)
 
 /-- the decoder's registry against the encoder's: entry by entry the same names, widths and bit
     positions, values related by `PRel`, control properties identical -/
 def RegRel : Registry → Registry → Prop
   | [], [] => True
-  | e :: r, e' :: r' => ERel e e' ∧ RegRel r r'
+  | e :: r, e' :: r' => ERel X e e' ∧ RegRel r r'
   | _, _ => False
 
-theorem PRel_canon (p : Param) (v : PVal) : PRel p.name p.nbits v (canonV p v) := by
+variable {X}
+
+theorem PRel_canon (p : Param) (v : PVal) : PRel X p.name p.nbits v (canonV p v) := by
   cases v with
   | int x => exact Or.inr (Or.inr rfl)
   | bool b => exact Or.inr rfl
   | bin bs => exact Or.inr ⟨0, by simp [zeros, canonV], fun _ => rfl⟩
   | bytes b => exact Or.inr fun _ => rfl
-  | descs ids => exact Or.inr ⟨0, by simp [canonV]⟩
+  | descs ids => exact Or.inr ⟨0, by simp [canonV], fun _ => rfl⟩
   | data => exact Or.inl rfl
 
-theorem RegRel_refl_init : RegRel Registry.init Registry.init := by
+theorem RegRel_refl_init : RegRel X Registry.init Registry.init := by
   simp only [Registry.init, RegRel, ERel, PRel, and_true, true_and]
   decide
 
-theorem RegRel_get {rE rD : Registry} (h : RegRel rE rD) (n : String) (hn : isCtrl n = true) :
+theorem RegRel_get {rE rD : Registry} (h : RegRel X rE rD) (n : String) (hn : isCtrl n = true) :
     (rD.get? n).map (·.val) = (rE.get? n).map (·.val) := by
   induction rE generalizing rD with
   | nil => cases rD with
@@ -479,7 +485,7 @@ theorem RegRel_get {rE rD : Registry} (h : RegRel rE rD) (n : String) (hn : isCt
         simp only [this]
         exact ih h6
 
-theorem RegRel_editionKey {rE rD : Registry} (h : RegRel rE rD) : rD.editionKey = rE.editionKey := by
+theorem RegRel_editionKey {rE rD : Registry} (h : RegRel X rE rD) : rD.editionKey = rE.editionKey := by
   have := RegRel_get h "edition" isCtrl_edition
   unfold Registry.editionKey
   cases h1 : rD.get? "edition" <;> cases h2 : rE.get? "edition" <;> simp only [h1, h2, Option.map_some,
@@ -487,7 +493,7 @@ theorem RegRel_editionKey {rE rD : Registry} (h : RegRel rE rD) : rD.editionKey 
   · rfl
   · simp only [this]
 
-theorem RegRel_isPresent {rE rD : Registry} (h : RegRel rE rD) (s : SectionLayout) (idx : Nat) :
+theorem RegRel_isPresent {rE rD : Registry} (h : RegRel X rE rD) (s : SectionLayout) (idx : Nat) :
     isPresent rD s idx = isPresent rE s idx := by
   have := RegRel_get h (presName idx) (isCtrl_presName idx)
   unfold isPresent
@@ -500,7 +506,7 @@ theorem RegRel_isPresent {rE rD : Registry} (h : RegRel rE rD) (s : SectionLayou
 
 theorem RegRel_register (start : Nat) :
     ∀ (ps : List Param) (vs vsD : List PVal) (off : Nat) (rE rD : Registry),
-      RelVals ps vs vsD → RegRel rE rD → RegRel (register rE start off ps vs) (register rD start off ps vsD) := by
+      RelVals X ps vs vsD → RegRel X rE rD → RegRel X (register rE start off ps vs) (register rD start off ps vsD) := by
   intro ps
   induction ps with
   | nil => intro vs vsD off rE rD _ h; cases vs <;> cases vsD <;> simpa [register] using h
@@ -589,10 +595,10 @@ theorem zeros_split (a b : Nat) (h : a ≤ b) : zeros b = zeros a ++ zeros (b - 
 theorem decValue_zero {α : Type} (dc : DataCoder α) (a : α) {p : Param} {v : PVal} {payload w y : Bits}
     (hw : p.widthOK = true) (hn : p.nbits = 0) (h : encParam w p v payload = .ok (w ++ y))
     (st : DecSt α) (H z : Nat) (hsl : secLen st.acc = .ok H) (hH : 8 * H = st.used + y.length + z)
-    (hal : p.ty = .descriptors → st.used % 8 = 0)
+    (hal : p.ty = .descriptors → st.used % 8 = 0) (hX : X → z < 16)
     (hdc : p.ty = .templateData → ∀ x, dc.dec st.reg (payload ++ x) = .ok (a, x)) :
     ∃ (v' : PVal) (c : Bits) (z' : Nat) (dat : Option α), z' ≤ z ∧ c.length = y.length + (z - z') ∧
-      PRel p.name p.nbits v v' ∧ (p.ty ≠ .uint ∧ p.ty ≠ .int ∧ p.ty ≠ .bool) ∧ dat = (if p.ty = .templateData then some a else none) ∧
+      PRel X p.name p.nbits v v' ∧ (p.ty ≠ .uint ∧ p.ty ≠ .int ∧ p.ty ≠ .bool) ∧ dat = (if p.ty = .templateData then some a else none) ∧
       ∀ suf, y ++ (zeros z ++ suf) = c ++ (zeros z' ++ suf) ∧
         decValue dc st p (c ++ (zeros z' ++ suf)) = .ok ((v', dat), zeros z' ++ suf) := by
   unfold encParam at h
@@ -605,7 +611,7 @@ theorem decValue_zero {α : Type} (dc : DataCoder α) (a : α) {p : Param} {v : 
     have hu := hal hty
     have hcount : (H - st.used / 8) / 2 = ids.length + z / 16 := by omega
     refine ⟨.descs (ids ++ List.replicate (z / 16) 0), y ++ zeros (16 * (z / 16)), z - 16 * (z / 16), none,
-      by omega, by simp only [List.length_append, zeros_length]; omega, Or.inr ⟨z / 16, rfl⟩, (by simp [hty]),
+      by omega, by simp only [List.length_append, zeros_length]; omega, Or.inr ⟨z / 16, rfl, fun hx => by have := hX hx; omega⟩, (by simp [hty]),
       (by simp [hty]), fun suf => ⟨?_, ?_⟩⟩
     · rw [zeros_split (16 * (z / 16)) z (by omega)]; simp only [List.append_assoc]
     · simp only [decValue, hty, R.bind, hsl, R.lift, R.pure, R.map, hcount, List.append_assoc,
@@ -735,10 +741,10 @@ theorem decParams_tail {α : Type} (dc : DataCoder α) (a : α) (payload : Bits)
     ∀ (ps : List Param) (vs : List PVal) (w y : Bits) (z off : Nat) (st : DecSt α) (rE : Registry),
       (∀ p ∈ ps, PGood p) → zl ps = true → descAlignedGo ps st.used = true → valsOK ps vs = true →
       encParams payload ps vs w = .ok (w ++ y) →
-      secLen st.acc = .ok H → 8 * H = st.used + y.length + z → RegRel rE st.reg →
-      (hasData ps = true → ∀ rD, RegRel (register rE start off (beforeData ps) vs) rD →
+      secLen st.acc = .ok H → 8 * H = st.used + y.length + z → (X → z < 16) → RegRel X rE st.reg →
+      (hasData ps = true → ∀ rD, RegRel X (register rE start off (beforeData ps) vs) rD →
         ∀ x, dc.dec rD (payload ++ x) = .ok (a, x)) →
-      ∃ (vsD : List PVal) (z' : Nat) (dat : Option α), z' ≤ z ∧ RelVals ps vs vsD ∧
+      ∃ (vsD : List PVal) (z' : Nat) (dat : Option α), z' ≤ z ∧ RelVals X ps vs vsD ∧
         dat = (if hasData ps = true then some a else none) ∧
         ∀ suf, decParams dc start ps off st (y ++ (zeros z ++ suf)) = .ok
           ({ reg := register st.reg start off ps vsD, acc := st.acc ++ decAcc ps vsD,
@@ -747,14 +753,14 @@ theorem decParams_tail {α : Type} (dc : DataCoder α) (a : α) (payload : Bits)
   intro ps
   induction ps with
   | nil =>
-    intro vs w y z off st rE _ _ _ _ h _ _ _ _
+    intro vs w y z off st rE _ _ _ _ h _ _ _ _ _
     simp only [encParams] at h
     have hy : [] = y := List.append_cancel_left (as := w) (by simpa using Except.ok.inj h)
     subst hy
     refine ⟨[], z, none, Nat.le_refl _, by cases vs <;> trivial, by simp [hasData], fun suf => ?_⟩
     simp [decParams, R.pure, register, decAcc]
   | cons p ps ih =>
-    intro vs w y z off st rE hgood hzl hal hvs h hsl hH hreg hdc
+    intro vs w y z off st rE hgood hzl hal hvs h hsl hH hX hreg hdc
     cases vs with
     | nil => simp only [encParams] at h; cases h
     | cons v vs =>
@@ -791,7 +797,7 @@ theorem decParams_tail {α : Type} (dc : DataCoder α) (a : α) (payload : Bits)
           simp only [beforeData, List.takeWhile, hty, bne_self_eq_false, register]
           exact hreg
         obtain ⟨v', c, z', dat, hz', hcl, hrel, hnty, hdat, hrun⟩ :=
-          decValue_zero dc a hw hn h1 st H z hsl hH (fun hty => by rcases hal.1 with h0 | h0; exact absurd hty h0; exact h0) hdc'
+          decValue_zero dc a hw hn h1 st H z hsl hH (fun hty => by rcases hal.1 with h0 | h0; exact absurd hty h0; exact h0) hX hdc'
         refine ⟨[v'], z', dat, hz', ⟨hrel, fun hp hc => ?_, trivial⟩, by simp [hdat, hasData], fun suf => ?_⟩
         · rcases hctrl hp hc with h0 | h0 | h0
           · exact absurd h0 hnty.1
@@ -822,8 +828,8 @@ theorem decParams_tail {α : Type} (dc : DataCoder α) (a : α) (payload : Bits)
           { reg := if p.asProperty then (p.name, { val := canonV p v, nbits := p.nbits, pos := start + off }) :: st.reg
                    else st.reg,
             acc := st.acc ++ [(p.name, canonV p v)], used := st.used + x1.length, data := st.data }
-        have hreg1 : RegRel rE1 st1.reg := by
-          show RegRel (if p.asProperty then _ else _) (if p.asProperty then _ else _)
+        have hreg1 : RegRel X rE1 st1.reg := by
+          show RegRel X (if p.asProperty then _ else _) (if p.asProperty then _ else _)
           by_cases hp : p.asProperty = true
           · simp only [hp, if_true]
             exact ⟨⟨rfl, rfl, rfl, PRel_canon p v, fun hc => hcan hp hc⟩, hreg⟩
@@ -834,7 +840,7 @@ theorem decParams_tail {α : Type} (dc : DataCoder α) (a : α) (payload : Bits)
         obtain ⟨vsD, z', dat, hz', hrel, hdat, hrun⟩ := ih vs (w ++ x1) y' z (off + p.nbits) st1 rE1
           (fun q hq => hgood q (List.mem_cons_of_mem _ hq)) (zl_tail hzl)
           (by show descAlignedGo ps (st.used + x1.length) = true; rw [hl1]; exact hal.2) hvs.2
-          (by rw [h, List.append_assoc]) (secLen_append hsl) hH1 hreg1
+          (by rw [h, List.append_assoc]) (secLen_append hsl) hH1 hX hreg1
           (fun hd rD hr => hdc (by rw [hhd]; exact hd) rD
             (by simpa [beforeData, List.takeWhile, hnty, register] using hr))
         refine ⟨canonV p v :: vsD, z', dat, hz', ⟨PRel_canon p v, hcan, hrel⟩,
@@ -874,7 +880,7 @@ theorem decAcc_canon (ps : List Param) (vs : List PVal) :
     | cons v vs => simp only [decAcc, List.zipWith_cons_cons] at ih ⊢; rw [ih]
 
 theorem relVals_canon {payload : Bits} : ∀ (ps : List Param) (vs : List PVal) (w w1 : Bits),
-    (∀ p ∈ ps, PGood p) → encParams payload ps vs w = .ok w1 → RelVals ps vs (List.zipWith canonV ps vs) := by
+    (∀ p ∈ ps, PGood p) → encParams payload ps vs w = .ok w1 → RelVals X ps vs (List.zipWith canonV ps vs) := by
   intro ps
   induction ps with
   | nil => intro vs _ _ _ _; cases vs <;> trivial
@@ -902,7 +908,7 @@ theorem decSection_noLen {α : Type} (dc : DataCoder α) {s : SectionLayout} {vs
     (hs : s.WF = true) (hok : layoutOK s = true) (hh : s.hasParam "section_length" = false)
     (hvs : valsOK s.params vs = true) (h : ∀ w0, encParams payload s.params vs w0 = .ok (w0 ++ x))
     (regD : Registry) (start : Nat) :
-    RelVals s.params vs (List.zipWith canonV s.params vs) ∧ hasData s.params = false ∧
+    RelVals X s.params vs (List.zipWith canonV s.params vs) ∧ hasData s.params = false ∧
     x.length = (s.params.map (·.nbits)).sum ∧
     ∀ suf, decSection dc s regD start (x ++ suf) = .ok
       (({ index := s.index, params := decAcc s.params (List.zipWith canonV s.params vs), nbits := x.length },
@@ -934,15 +940,16 @@ theorem wf_expectedOK {s : SectionLayout} (hs : s.WF = true) {p : Param} (hp : p
 /-- a section with a section length -/
 theorem decSection_len {α : Type} (dc : DataCoder α) (a : α) {cfg : EncCfg} {s : SectionLayout} {vs : List PVal}
     {payload B : Bits} (hs : s.WF = true) (hok : layoutOK s = true) (hh : s.hasParam "section_length" = true)
-    (hvs : valsOK s.params vs = true) (hB : LenShape cfg s vs payload B)
-    (regE regD : Registry) (start : Nat) (hreg : RegRel regE regD)
-    (hdc : hasData s.params = true → ∀ rD, RegRel (register regE start 0 (beforeData s.params) vs) rD →
+    (hvs : valsOK s.params vs = true) (hB : LenShape cfg s vs payload B) (hXc : X → cfg.ignoreDeclared = true)
+    (regE regD : Registry) (start : Nat) (hreg : RegRel X regE regD)
+    (hdc : hasData s.params = true → ∀ rD, RegRel X (register regE start 0 (beforeData s.params) vs) rD →
       ∀ x, dc.dec rD (payload ++ x) = .ok (a, x)) :
-    ∃ vsD, RelVals s.params vs vsD ∧
+    ∃ vsD, RelVals X s.params vs vsD ∧
       ∀ suf, decSection dc s regD start (B ++ suf) = .ok
         (({ index := s.index, params := decAcc s.params vsD, nbits := B.length },
           register regD start 0 s.params vsD, if hasData s.params = true then some a else none), suf) := by
-  obtain ⟨p, ps, d, vs', y, z, H, ed, hp, hname, hnb, hty, hvs', hy, hBe, hH24, hH, _⟩ := hB.ex
+  obtain ⟨p, ps, d, vs', y, z, H, ed, hp, hname, hnb, hty, hvs', hy, hBe, hH24, hH, hzp⟩ := hB.ex
+  have hXz : X → z < 16 := fun hx => by rw [hzp (Or.inl (hXc hx))]; exact padBits_lt16 _ _
   have hg := pgood_of hs hok
   have hpm : p ∈ s.params := by rw [hp]; exact List.mem_cons_self
   have hexp : p.expected = none := wf_expectedOK hs hpm (by rw [hty]; decide)
@@ -961,8 +968,8 @@ theorem decSection_len {α : Type} (dc : DataCoder α) (a : α) {cfg : EncCfg} {
     { reg := if p.asProperty then (p.name, { val := .int (Int.ofNat H), nbits := p.nbits, pos := start + 0 }) :: regD else regD,
       acc := [(p.name, .int (Int.ofNat H))], used := 0 + (toBits 24 H).length, data := none }
   let rE1 : Registry := if p.asProperty then (p.name, { val := .int d, nbits := p.nbits, pos := start + 0 }) :: regE else regE
-  have hreg1 : RegRel rE1 st1.reg := by
-    show RegRel (if p.asProperty then _ else _) (if p.asProperty then _ else _)
+  have hreg1 : RegRel X rE1 st1.reg := by
+    show RegRel X (if p.asProperty then _ else _) (if p.asProperty then _ else _)
     by_cases hpa : p.asProperty = true
     · simp only [hpa, if_true]
       refine ⟨⟨rfl, rfl, rfl, Or.inr (Or.inl (Or.inl hname)), fun hc => ?_⟩, hreg⟩
@@ -988,7 +995,7 @@ theorem decSection_len {α : Type} (dc : DataCoder α) (a : α) {cfg : EncCfg} {
     (fun q hq => hg q (by rw [hp]; exact List.mem_cons_of_mem _ hq))
     (zl_tail (by have := zl_of_zeroLast (s := s) (by
       simp only [SectionLayout.WF, Bool.and_eq_true] at hs; exact hs.1.1.1.2); rwa [hp] at this))
-    hal hvs.2 (hy []) hsl1 (by rw [hu1]; omega) hreg1
+    hal hvs.2 (hy []) hsl1 (by rw [hu1]; omega) hXz hreg1
     (fun hd rD hr => hdc (by rw [hhd]; exact hd) rD (by
       have hbd : beforeData (p :: ps) = p :: beforeData ps := by
         simp only [beforeData, List.takeWhile_cons, hpnd, if_true]
@@ -1034,17 +1041,17 @@ theorem decSection_len {α : Type} (dc : DataCoder α) (a : α) {cfg : EncCfg} {
 /-- one section, as `encSection` wrote it -/
 theorem decSection_sim {α : Type} (dc : DataCoder α) (a : α) {cfg : EncCfg} {s : SectionLayout} {vs : List PVal}
     {payload : Bits} {regE : Registry} {w : Bits} {regE1 : Registry} {w' : Bits}
-    (hs : s.WF = true) (hok : layoutOK s = true) (hvs : valsOK s.params vs = true)
-    (h : encSection cfg s vs payload regE w = .ok (regE1, w')) (regD : Registry) (hreg : RegRel regE regD)
-    (hdc : hasData s.params = true → ∀ rD, RegRel (register regE w.length 0 (beforeData s.params) vs) rD →
+    (hs : s.WF = true) (hok : layoutOK s = true) (hvs : valsOK s.params vs = true) (hXc : X → cfg.ignoreDeclared = true)
+    (h : encSection cfg s vs payload regE w = .ok (regE1, w')) (regD : Registry) (hreg : RegRel X regE regD)
+    (hdc : hasData s.params = true → ∀ rD, RegRel X (register regE w.length 0 (beforeData s.params) vs) rD →
       ∀ x, dc.dec rD (payload ++ x) = .ok (a, x)) :
-    ∃ B vsD, w' = w ++ B ∧ RelVals s.params vs vsD ∧ RegRel regE1 (register regD w.length 0 s.params vsD) ∧
+    ∃ B vsD, w' = w ++ B ∧ RelVals X s.params vs vsD ∧ RegRel X regE1 (register regD w.length 0 s.params vsD) ∧
       ∀ suf, decSection dc s regD w.length (B ++ suf) = .ok
         (({ index := s.index, params := decAcc s.params vsD, nbits := B.length },
           register regD w.length 0 s.params vsD, if hasData s.params = true then some a else none), suf) := by
   obtain ⟨hr1, _, B, hw', hcase⟩ := encSection_shape hs h
   rcases hcase with ⟨hh, x, ed, hx, hB⟩ | ⟨hh, hshape⟩
-  · obtain ⟨hrel, hnd, hxl, hrun⟩ := decSection_noLen dc hs hok hh hvs hx regD w.length
+  · obtain ⟨hrel, hnd, hxl, hrun⟩ := decSection_noLen (X := X) dc hs hok hh hvs hx regD w.length
     have hpad : padBits ed x.length = 0 := by
       apply padBits_16
       have : noLenAligned s = true := by
@@ -1055,7 +1062,7 @@ theorem decSection_sim {α : Type} (dc : DataCoder α) (a : α) {cfg : EncCfg} {
     subst hBx
     refine ⟨B, _, hw', hrel, by rw [hr1]; exact RegRel_register _ _ _ _ _ _ _ hrel hreg, fun suf => ?_⟩
     rw [hrun suf, hnd]; rfl
-  · obtain ⟨vsD, hrel, hrun⟩ := decSection_len dc a hs hok hh hvs hshape regE regD w.length hreg hdc
+  · obtain ⟨vsD, hrel, hrun⟩ := decSection_len dc a hs hok hh hvs hshape hXc regE regD w.length hreg hdc
     exact ⟨B, vsD, hw', hrel, by rw [hr1]; exact RegRel_register _ _ _ _ _ _ _ hrel hreg, hrun⟩
 
 /-! ## the section loop -/
@@ -1089,11 +1096,12 @@ def encVisits (L : Layouts) (cfg : EncCfg) (payload : Bits) :
             { s := s, vs := vs, reg := reg, start := w.length } ::
               (if s.endOfMessage then [] else encVisits L cfg payload fuel (idx + 1) rest reg1 w1)
 
+variable (X) in
 /-- the decoded sections against what was supplied -/
 def SecsRel : List Visit → List DecSection → Prop
   | [], [] => True
   | v :: vs, sec :: secs =>
-    sec.index = v.s.index ∧ (∃ vsD, sec.params = decAcc v.s.params vsD ∧ RelVals v.s.params v.vs vsD) ∧ SecsRel vs secs
+    sec.index = v.s.index ∧ (∃ vsD, sec.params = decAcc v.s.params vsD ∧ RelVals X v.s.params v.vs vsD) ∧ SecsRel vs secs
   | _, _ => False
 
 def visitsHaveData (vs : List Visit) : Bool := vs.any fun v => hasData v.s.params
@@ -1121,17 +1129,17 @@ theorem decLoop_present {α : Type} {L : Layouts} {dc : DataCoder α} {fuel idx 
   by_cases he : s.endOfMessage = true <;> cases d <;> simp [he, R.pure, optOr]
 
 theorem loop_sim {α : Type} (dc : DataCoder α) (a : α) {L : Layouts} {cfg : EncCfg} {payload : Bits}
-    (hL : L.WF = true) (hok : LayoutsOK L = true) :
+    (hL : L.WF = true) (hok : LayoutsOK L = true) (hXc : X → cfg.ignoreDeclared = true) :
     ∀ (fuel idx : Nat) (vals : List (List PVal)) (regE : Registry) (w : Bits) (tr : List (Nat × Nat))
       (regE' : Registry) (w' : Bits) (tr' : List (Nat × Nat)),
       encLoop L cfg payload fuel idx vals regE w tr = .ok (regE', w', tr') →
       (∀ v ∈ encVisits L cfg payload fuel idx vals regE w, valsOK v.s.params v.vs = true) →
       (∀ v ∈ encVisits L cfg payload fuel idx vals regE w, hasData v.s.params = true →
-        ∀ rD, RegRel (register v.reg v.start 0 (beforeData v.s.params) v.vs) rD →
+        ∀ rD, RegRel X (register v.reg v.start 0 (beforeData v.s.params) v.vs) rD →
           ∀ x, dc.dec rD (payload ++ x) = .ok (a, x)) →
-      ∀ (regD : Registry) (out : DecOut α), RegRel regE regD → out.nbits = w.length →
+      ∀ (regD : Registry) (out : DecOut α), RegRel X regE regD → out.nbits = w.length →
       ∃ (B : Bits) (secs : List DecSection), w' = w ++ B ∧
-        SecsRel (encVisits L cfg payload fuel idx vals regE w) secs ∧
+        SecsRel X (encVisits L cfg payload fuel idx vals regE w) secs ∧
         ∀ suf, decLoop L dc {} fuel idx regD out (B ++ suf) = .ok
           ({ sections := out.sections ++ secs,
              data := if visitsHaveData (encVisits L cfg payload fuel idx vals regE w) = true then some a else out.data,
@@ -1175,7 +1183,7 @@ theorem loop_sim {α : Type} (dc : DataCoder α) (a : α) {L : Layouts} {cfg : E
         rename_i reg1 w1 hsec
         simp only [hsec] at hvals hdc ⊢
         obtain ⟨B1, vsD, hw1, hrel, hreg1, hrun⟩ := decSection_sim dc a hsWF hsOK
-          (hvals _ List.mem_cons_self) hsec regD hreg (fun hd rD hr => hdc _ List.mem_cons_self hd rD hr)
+          (hvals _ List.mem_cons_self) hXc hsec regD hreg (fun hd rD hr => hdc _ List.mem_cons_self hd rD hr)
         split at h
         · -- the final section
           rename_i hend
@@ -1215,12 +1223,12 @@ def encodeVisits (L : Layouts) (cfg : EncCfg) (vals : List (List PVal)) (payload
 
 theorem encodeBits_rt {α : Type} (dc : DataCoder α) (a : α) {L : Layouts} {cfg : EncCfg} {vals : List (List PVal)}
     {payload w : Bits} {tr : List (Nat × Nat)} (hL : L.WF = true) (hok : LayoutsOK L = true)
-    (h : encodeBits L cfg vals payload = .ok (w, tr))
+    (hXc : X → cfg.ignoreDeclared = true) (h : encodeBits L cfg vals payload = .ok (w, tr))
     (hvals : ∀ v ∈ encodeVisits L cfg vals payload, valsOK v.s.params v.vs = true)
     (hdc : ∀ v ∈ encodeVisits L cfg vals payload, hasData v.s.params = true →
-      ∀ rD, RegRel (register v.reg v.start 0 (beforeData v.s.params) v.vs) rD →
+      ∀ rD, RegRel X (register v.reg v.start 0 (beforeData v.s.params) v.vs) rD →
         ∀ x, dc.dec rD (payload ++ x) = .ok (a, x)) :
-    ∃ secs, SecsRel (encodeVisits L cfg vals payload) secs ∧
+    ∃ secs, SecsRel X (encodeVisits L cfg vals payload) secs ∧
       ∀ suf, decodeBits L dc {} (w ++ suf) = .ok
         ({ sections := secs,
            data := if visitsHaveData (encodeVisits L cfg vals payload) = true then some a else none,
@@ -1268,7 +1276,7 @@ theorem encodeBits_rt {α : Type} (dc : DataCoder α) (a : α) {L : Layouts} {cf
     · rw [hnl] at hh; cases hh
     have hvs0 := hvals _ List.mem_cons_self
     simp only at hvs0
-    obtain ⟨hrel0, hnd0, hxl0, hrun0⟩ := decSection_noLen dc hs0WF hs0OK hnl hvs0 hx0 Registry.init 0
+    obtain ⟨hrel0, hnd0, hxl0, hrun0⟩ := decSection_noLen (X := X) dc hs0WF hs0OK hnl hvs0 hx0 Registry.init 0
     have hpad : padBits ed x0.length = 0 := by
       apply padBits_16
       have : noLenAligned e0.layout = true := by
@@ -1294,10 +1302,8 @@ theorem encodeBits_rt {α : Type} (dc : DataCoder α) (a : α) {L : Layouts} {cf
     · cases hx
     rename_i wb hb
     obtain ⟨y, hy, hysh⟩ := encParams_sh hx
-    cases v0 <;> simp only [encParam, ht0, hn0] at ha <;> try cases ha
-    rename_i b0
-    cases v1 <;> simp only [encParam, ht1, hn1] at hb <;> try cases hb
-    rename_i d
+    rcases v0 with _ | _ | _ | b0 | _ | _ <;> simp only [encParam, ht0, hn0] at ha <;> try cases ha
+    rcases v1 with d | _ | _ | _ | _ | _ <;> simp only [encParam, ht1, hn1] at hb <;> try cases hb
     have hw4 : writeBytes [] b0 (some (32 / 8)) = bytesToBits (padBytes b0 4) := by
       simp only [writeBytes, List.nil_append]
     rw [hw4] at hb
@@ -1364,26 +1370,26 @@ theorem encodeBits_rt {α : Type} (dc : DataCoder α) (a : α) {L : Layouts} {cf
     have hx0'' : x0' = bytesToBits (padBytes b0 4) ++ toBits 24 T ++ y := by
       have := List.append_cancel_left hx0e; exact this.symm
     subst hx0''
-    obtain ⟨hrelT, _, _, hrunT⟩ := decSection_noLen dc hs0WF hs0OK hnl hvs0' hx0' Registry.init 0
-    have hrelT' : RelVals e0.layout.params (.bytes b0 :: .int d :: rest0)
+    obtain ⟨hrelT, _, _, hrunT⟩ := decSection_noLen (X := X) dc hs0WF hs0OK hnl hvs0' hx0' Registry.init 0
+    have hrelT' : RelVals X e0.layout.params (.bytes b0 :: .int d :: rest0)
         (List.zipWith canonV e0.layout.params (.bytes b0 :: .int (Int.ofNat T) :: rest0)) := by
       rw [hp] at hrelT ⊢
       obtain ⟨a0, c0, _, _, r0⟩ := hrelT
       exact ⟨a0, c0, Or.inr (Or.inl (Or.inr hname1)), fun _ hc => absurd (hname1 ▸ hc) (by decide), r0⟩
     generalize List.zipWith canonV e0.layout.params (.bytes b0 :: .int (Int.ofNat T) :: rest0) = vsD0 at hrelT' hrunT
-    generalize hX : bytesToBits (padBytes b0 4) ++ toBits 24 T ++ y = X at hrunT hw2e
-    have hregD1 : RegRel reg1 (register Registry.init 0 0 e0.layout.params vsD0) := by
+    generalize hX0 : bytesToBits (padBytes b0 4) ++ toBits 24 T ++ y = X0 at hrunT hw2e
+    have hregD1 : RegRel X reg1 (register Registry.init 0 0 e0.layout.params vsD0) := by
       rw [hr1]; exact RegRel_register _ _ _ _ _ _ _ hrelT' RegRel_refl_init
-    have hlen1 : X.length = w1.length := by
-      rw [← hX, hxe]; simp only [List.length_append, h24]
+    have hlen1 : X0.length = w1.length := by
+      rw [← hX0, hxe]; simp only [List.length_append, h24]
     -- the remaining sections
-    obtain ⟨B, secs, hwlB, hsecs, hrunL⟩ := loop_sim dc a hL hok _ _ _ _ _ _ _ _ _ hloop
+    obtain ⟨B, secs, hwlB, hsecs, hrunL⟩ := loop_sim dc a hL hok hXc _ _ _ _ _ _ _ _ _ hloop
       (fun v hv => hvals v (List.mem_cons_of_mem _ hv)) (fun v hv => hdc v (List.mem_cons_of_mem _ hv))
-      _ { sections := [] ++ [{ index := e0.layout.index, params := decAcc e0.layout.params vsD0, nbits := X.length }],
-          data := optOr none none, nbits := 0 + X.length } hregD1
+      _ { sections := [] ++ [{ index := e0.layout.index, params := decAcc e0.layout.params vsD0, nbits := X0.length }],
+          data := optOr none none, nbits := 0 + X0.length } hregD1
       (by show 0 + _ = w1.length; rw [hlen1]; omega)
     have hB : framesBits (fs ++ [fl]) = B := List.append_cancel_left (hwl.symm.trans hwlB)
-    refine ⟨{ index := e0.layout.index, params := decAcc e0.layout.params vsD0, nbits := X.length } :: secs,
+    refine ⟨{ index := e0.layout.index, params := decAcc e0.layout.params vsD0, nbits := X0.length } :: secs,
       ⟨rfl, ⟨vsD0, rfl, hrelT'⟩, hsecs⟩, fun suf => ?_⟩
     have hcfg' : getCfg L 0 Registry.init.editionKey = .ok e0.layout := by rw [hk]; exact hcfg
     rw [hw2e, hB, List.append_assoc]
@@ -1392,5 +1398,6 @@ theorem encodeBits_rt {α : Type} (dc : DataCoder α) (a : α) {L : Layouts} {cf
     simp only [visitsHaveData, List.any_cons, hnd0, Bool.false_or, List.nil_append, List.length_append, Nat.zero_add,
       optOr, List.cons_append]
 
+end rel
 end RT
 end Bufr
